@@ -295,6 +295,7 @@ func TestC19Runs(t *testing.T) {
 		kind := kind
 		t.Run(kind, func(t *testing.T) {
 			rapid.Check(t, func(t *rapid.T) {
+				decorrelate(t, kind)
 				cfg := genPCfg(t, kind, 400)
 				// at least one block of >= 32 bytes must be possible
 				if cfg.BlockSize != 0 && cfg.BlockSize < 32 {
@@ -413,6 +414,7 @@ func tripleProp(t *testing.T, prop string) {
 		kind := kind
 		t.Run(kind, func(t *testing.T) {
 			rapid.Check(t, func(t *rapid.T) {
+				decorrelate(t, kind)
 				cfg := genPCfg(t, kind, 400)
 				cfg.BufferSize = rapid.IntRange(300, 3000).Draw(t, "tBuf")
 				cfg.WindowSize = rapid.IntRange(16, cfg.BufferSize).Draw(t, "tWin")
